@@ -190,7 +190,7 @@ Body(outs, fault) ==
         /\ pend' = IF fa = 0 THEN Added(quar, outs) ELSE {}
         \* a quarantined message resolves the junk mailboxes of all recipients first
         /\ blobs' = IF fa = 0 THEN TRUE ELSE (fa > 1 /\ ~(quar /\ Dead # {}))
-        /\ obs' = ObsBody(obs, cfg, outs, Calls(quar, outs), res, store)
+        /\ obs' = ObsBody(obs, cfg, outs, Calls(quar, outs), fault, res, store)
         /\ hist' = H([a |-> "Body", outs |-> outs, fault |-> fault])
   /\ UNCHANGED <<cfg, mi, idx, ks, store, exists, leak, envDone, used>>
 
